@@ -432,11 +432,16 @@ inline void pool_dependent(const vf::opts &o, vf::report &R, uint64_t rounds) {
         vf::set_crash_ctx(R.prop.c_str(), "pool_dependent", o.seed, rn, desc.c_str());
         std::atomic<int> started[4], done{0};
         for (auto &x : started) x = 0;
+        bool from_worker = false;
         {
             cocls::thread_pool A((unsigned)nw);
             for (int i = 0; i < warm; i++) { cocls::future<int> f = A.run([]() -> int { return 1; }); f.sync(); }
             if (warm && r.chance(1, 2)) usleep(200);
             std::vector<std::unique_ptr<cocls::future<int>>> futs;
+            // half of the chains are submitted from INSIDE a job, i.e. from one of the pool's own worker threads (the other workers are
+            // idle and must be woken for the chain: every job needs a worker of its own)
+            from_worker = r.chance(1, 2);
+            auto submit_all = [&] {
             for (int i = 0; i < m; i++) {
                 std::atomic<int> *me = &started[i], *next = i + 1 < m ? &started[i + 1] : nullptr;
                 auto body = [me, next, &done]() {
@@ -449,14 +454,17 @@ inline void pool_dependent(const vf::opts &o, vf::report &R, uint64_t rounds) {
                 else if (kinds[i] == 1) futs.push_back(std::unique_ptr<cocls::future<int>>(new cocls::future<int>(A.run([body]() -> int { body(); return 5; }))));
                 else pd_await_pool(A, me, next, done).detach();
             }
+            };
+            if (from_worker) { cocls::future<int> sf = A.run([&]() -> int { submit_all(); return 0; }); sf.sync(); } else submit_all();
             for (int d; (d = done.load(std::memory_order_relaxed)) < m;) done.wait(d, std::memory_order_relaxed); // watchdog: no progress + everybody asleep = hang
             for (auto &f : futs) f->sync();
         }
         R.cases++;
         if (done.load() != m) { R.violation("monitor:exactly_once|pool_dependent", "jobs completed " + std::to_string(done.load()) + " times, expected " + std::to_string(m), vf::jobj().kv("round", (unsigned long long)rn).kv("desc", desc).str()); continue; }
         R.nontrivial_cases++;
-        R.sig(desc + " warm" + std::to_string(warm));
+        R.sig(desc + " warm" + std::to_string(warm) + (from_worker ? " submitted from a worker" : ""));
         R.cls("chains_of_dependent_jobs_completed");
+        if (from_worker) R.cls("chains_submitted_from_a_worker_thread");
         if (R.samples.size() < 2) R.sample(vf::jobj().kv("round", desc).kv("result", "every job reached a worker of its own").str());
     }
 }
